@@ -40,6 +40,7 @@ type Engine struct {
 	abandoned     int
 	knownWritten  map[string]bool
 	nonNilGlobal  map[*ssa.Global]bool
+	srcCache      map[string][]string
 	usedLemmas    map[string]bool
 }
 
@@ -443,6 +444,19 @@ func (e *Engine) genFunc(c *Contract, fn *ssa.Function, mode Mode, known map[str
 		fr.recovers = true
 	}
 	out, rv := e.runFunc(fr, st)
+	if len(c.SiteAsserts) > 0 {
+		for k, sa := range c.SiteAsserts {
+			hit := false
+			for key := range fr.siteDone {
+				if strings.HasPrefix(key, fmt.Sprintf("%d|", k)) {
+					hit = true
+				}
+			}
+			if !hit {
+				vc.oblige(fmt.Sprintf("assert_at:%d:site", k+1), "true", "false", fmt.Sprintf("no statement of the function contains the text %q any more", sa.Text))
+			}
+		}
+	}
 	if out == nil {
 		if !c.MayPanic {
 			vc.note("no path returns")
